@@ -253,6 +253,9 @@ class _MultiTensor:
     def _slice(self, index: slice, dim: int) -> _MultiTensor:
         dim = self._normalize_dim(dim)
         num_data = self.num_rows if dim == 0 else self.num_cols
+        if index.step is not None and index.step <= 0:
+            raise ValueError("slice step must be positive, but got "
+                             f"{index.step}")
         if index.step is not None and index.step > 1:
             idx = torch.tensor(
                 range(num_data)[index],
@@ -263,17 +266,9 @@ class _MultiTensor:
         else:
             # For narrow, we don't need out-of-bound checks since something
             # like mat[100:110] (with mat.size() < 100) is perfectly valid and
-            # should return an empty tensor.
-            start_idx: int = self._normalize_index(
-                index.start or 0,
-                dim=dim,
-                check_out_of_bounds=False,
-            )
-            end_idx: int = self._normalize_index(
-                index.stop if index.stop is not None else num_data,
-                dim=dim,
-                check_out_of_bounds=False,
-            )
+            # should return an empty tensor. Clamp the bounds the same way
+            # Python lists do.
+            start_idx, end_idx, _ = index.indices(num_data)
             return self.narrow(
                 dim=dim,
                 start=start_idx,
